@@ -377,12 +377,12 @@ Proof.
     { eexists; eexists; split; [reflexivity|]. apply SB_reader; [apply SB_refl|exact H2]. }
     cbn [set_cur r_tail_bid r_tail_off].
     set (start := if r_tail_bid r2 =? b_id w then r_tail_off r2 else 0).
-    set (pr := if ck && (start =? 0)
+    set (pr := if ck && (start =? 0) && (0 <? b_used w)
                then let '(r', p) := should_persist m (set_cur r2 i o) true in
                     (r', if p then persist ts true (b_id w) start else ts)
                else (set_cur r2 i o, ts)).
     assert (Hpr : r_chain (fst pr) = chain_of ts /\ SB ts (snd pr)).
-    { subst pr. destruct (ck && (start =? 0)).
+    { subst pr. destruct (ck && (start =? 0) && (0 <? b_used w)).
       - pose proof (should_persist_chain m (set_cur r2 i o) true) as Hsp.
         destruct (should_persist m (set_cur r2 i o) true) as [r' p]. cbn [fst snd set_cur r_chain] in *.
         split; [congruence|]. destruct p; [apply SB_persist|]; apply SB_refl.
